@@ -7502,7 +7502,13 @@ void SoPlexBase<R>::_addRowReal(const LPRowBase<R>& lprow)
    if(_isRealLPLoaded)
       _hasBasis = (_solver.basis().status() > SPxBasisBase<R>::NO_PROBLEM);
    else if(_hasBasis)
+   {
       _basisStatusRows.append(SPxSolverBase<R>::BASIC);
+
+      // columns created implicitly by the new row have bounds [0, infinity)
+      while(_basisStatusCols.size() < numCols())
+         _basisStatusCols.append(SPxSolverBase<R>::ON_LOWER);
+   }
 
    _rationalLUSolver.clear();
 }
@@ -7521,7 +7527,13 @@ void SoPlexBase<R>::_addRowReal(R lhs, const SVectorBase<R>& lprow, R rhs)
    if(_isRealLPLoaded)
       _hasBasis = (_solver.basis().status() > SPxBasisBase<R>::NO_PROBLEM);
    else if(_hasBasis)
+   {
       _basisStatusRows.append(SPxSolverBase<R>::BASIC);
+
+      // columns created implicitly by the new row have bounds [0, infinity)
+      while(_basisStatusCols.size() < numCols())
+         _basisStatusCols.append(SPxSolverBase<R>::ON_LOWER);
+   }
 
    _rationalLUSolver.clear();
 }
@@ -7540,7 +7552,13 @@ void SoPlexBase<R>::_addRowsReal(const LPRowSetBase<R>& lprowset)
    if(_isRealLPLoaded)
       _hasBasis = (_solver.basis().status() > SPxBasisBase<R>::NO_PROBLEM);
    else if(_hasBasis)
+   {
       _basisStatusRows.append(lprowset.num(), SPxSolverBase<R>::BASIC);
+
+      // columns created implicitly by the new rows have bounds [0, infinity)
+      while(_basisStatusCols.size() < numCols())
+         _basisStatusCols.append(SPxSolverBase<R>::ON_LOWER);
+   }
 
    _rationalLUSolver.clear();
 }
@@ -7565,6 +7583,10 @@ void SoPlexBase<R>::_addColReal(const LPColReal& lpcol)
          _basisStatusCols.append(SPxSolverBase<R>::ON_UPPER);
       else
          _basisStatusCols.append(SPxSolverBase<R>::ZERO);
+
+      // rows created implicitly by the new column are basic
+      while(_basisStatusRows.size() < numRows())
+         _basisStatusRows.append(SPxSolverBase<R>::BASIC);
    }
 
    _rationalLUSolver.clear();
@@ -7584,7 +7606,18 @@ void SoPlexBase<R>::_addColReal(R obj, R lower, const SVectorBase<R>& lpcol, R u
    if(_isRealLPLoaded)
       _hasBasis = (_solver.basis().status() > SPxBasisBase<R>::NO_PROBLEM);
    else if(_hasBasis)
-      _basisStatusRows.append(SPxSolverBase<R>::BASIC);
+   {
+      if(lower > -realParam(SoPlexBase<R>::INFTY))
+         _basisStatusCols.append(SPxSolverBase<R>::ON_LOWER);
+      else if(upper < realParam(SoPlexBase<R>::INFTY))
+         _basisStatusCols.append(SPxSolverBase<R>::ON_UPPER);
+      else
+         _basisStatusCols.append(SPxSolverBase<R>::ZERO);
+
+      // rows created implicitly by the new column are basic
+      while(_basisStatusRows.size() < numRows())
+         _basisStatusRows.append(SPxSolverBase<R>::BASIC);
+   }
 
    _rationalLUSolver.clear();
 }
@@ -7612,6 +7645,10 @@ void SoPlexBase<R>::_addColsReal(const LPColSetReal& lpcolset)
          else
             _basisStatusCols.append(SPxSolverBase<R>::ZERO);
       }
+
+      // rows created implicitly by the new columns are basic
+      while(_basisStatusRows.size() < numRows())
+         _basisStatusRows.append(SPxSolverBase<R>::BASIC);
    }
 
    _rationalLUSolver.clear();
@@ -8018,7 +8055,7 @@ void SoPlexBase<R>::_changeElementReal(int i, int j, const R& val)
    }
    else if(_hasBasis)
    {
-      if(_basisStatusRows[i] != SPxSolverBase<R>::BASIC && _basisStatusCols[i] == SPxSolverBase<R>::BASIC)
+      if(_basisStatusRows[i] != SPxSolverBase<R>::BASIC && _basisStatusCols[j] == SPxSolverBase<R>::BASIC)
          _hasBasis = false;
    }
 
@@ -8071,14 +8108,17 @@ void SoPlexBase<R>::_removeRowsReal(int perm[])
    }
    else if(_hasBasis)
    {
-      for(int i = numRows() - 1; i >= 0 && _hasBasis; i--)
+      // perm refers to the old numbering: walk over the old dimension, upward like the compaction (perm[i] <= i)
+      const int oldsize = _basisStatusRows.size();
+
+      for(int i = 0; i < oldsize && _hasBasis; i++)
       {
          if(perm[i] < 0 && _basisStatusRows[i] != SPxSolverBase<R>::BASIC)
             _hasBasis = false;
          else if(perm[i] >= 0 && perm[i] != i)
          {
             assert(perm[i] < numRows());
-            assert(perm[perm[i]] < 0);
+            assert(perm[i] < i);
 
             _basisStatusRows[perm[i]] = _basisStatusRows[i];
          }
@@ -8137,14 +8177,17 @@ void SoPlexBase<R>::_removeColsReal(int perm[])
    }
    else if(_hasBasis)
    {
-      for(int i = numCols() - 1; i >= 0 && _hasBasis; i--)
+      // perm refers to the old numbering: walk over the old dimension, upward like the compaction (perm[i] <= i)
+      const int oldsize = _basisStatusCols.size();
+
+      for(int i = 0; i < oldsize && _hasBasis; i++)
       {
          if(perm[i] < 0 && _basisStatusCols[i] == SPxSolverBase<R>::BASIC)
             _hasBasis = false;
          else if(perm[i] >= 0 && perm[i] != i)
          {
             assert(perm[i] < numCols());
-            assert(perm[perm[i]] < 0);
+            assert(perm[i] < i);
 
             _basisStatusCols[perm[i]] = _basisStatusCols[i];
          }
